@@ -152,6 +152,25 @@ class Leaves:
             t = bl["term"]
             if t["k"] != "call":
                 continue
+            # comparison / hash / format functions handed over as function items (`on_values(self, other, T::eq)`,
+            # `with_arcs(a, b, PartialOrd::partial_cmp)`): the callee applies them, so they are leaves of this body too
+            r0 = t.get("resolved")
+            for a in (r0["args"] if isinstance(r0, dict) else (t.get("callee_args") or [])):
+                if "t" not in a:
+                    continue
+                ft = F.ty(F.strip_refs(a["t"]))
+                if ft["k"] != "fndef" or "::" not in ft["def"]:
+                    continue
+                ftr, fm = ft["def"].rsplit("::", 1)
+                if ftr in TRAITS and ft.get("args") and "t" in ft["args"][0]:
+                    local_impl = None
+                    from ..implsel import fn_item
+
+                    local_impl = fn_item(F, F.strip_refs(a["t"]))[0]
+                    if local_impl is None:
+                        out.append({"trait": ftr, "method": fm, "self": ft["args"][0]["t"], "body": key, "loc": F.loc(b, t["span"]), "via": "fn item " + ft["def"]})
+                    else:
+                        out.append({"trait": ftr, "method": fm, "self": ft["args"][0]["t"], "body": key, "loc": F.loc(b, t["span"]), "via": "fn item " + ft["def"], "local_impl": local_impl})
             tr = t.get("callee_trait")
             if tr in TRAITS:
                 r = t.get("resolved")
@@ -316,12 +335,26 @@ def _path_without_delegate(F, L, b, tr):
             args = t.get("callee_args") or []
             if t.get("callee") in F.bodies:
                 cands.add(t["callee"])
+        direct_item = False
         for a in list(args) + [{"t": x} for x in t.get("arg_tys", [])]:
             if "t" in a:
                 for x in F.walk(a["t"]):
                     tt = F.ty(x)
                     if tt["k"] in ("closure", "fndef") and tt["def"] in F.bodies:
                         cands.add(tt["def"])
+                    elif tt["k"] == "fndef" and "::" in tt["def"] and tt["def"].rsplit("::", 1)[0] == tr and tt.get("args") and "t" in tt["args"][0]:
+                        # the payload's own method handed over as a function item (`on_values(self, other, T::eq)`)
+                        if payload_like(F, tt["args"][0]["t"]):
+                            direct_item = True
+                        else:
+                            from ..implsel import fn_item
+
+                            k2 = fn_item(F, x)[0]
+                            if k2:
+                                cands.add(k2)
+        if direct_item:
+            cut.add(bi)
+            continue
         for c in cands:
             leaves, _pe, _seen = L.reach(c)
             own = L.direct(c) if False else []
@@ -386,6 +419,15 @@ def _licence_shape(F, b, const_on_same):
     for bi, t in B.calls():
         if t.get("callee_trait") == "core::cmp::PartialEq" and t.get("resolved") == "unresolved":
             deleg_bbs.add(bi)
+    if not deleg_bbs:
+        # the payload's method handed to a private helper as a function item (`self.on_values(other, T::eq)`)
+        for bi, t in B.calls():
+            r = t.get("resolved")
+            for a in (r["args"] if isinstance(r, dict) else (t.get("callee_args") or [])):
+                if "t" in a:
+                    ft = F.ty(F.strip_refs(a["t"]))
+                    if ft["k"] == "fndef" and ft["def"].rsplit("::", 1)[0] == "core::cmp::PartialEq" and ft.get("args") and "t" in ft["args"][0] and payload_like(F, ft["args"][0]["t"]):
+                        deleg_bbs.add(bi)
     if not deleg_bbs:
         return False, "no delegation to the payload's PartialEq found"
     if sw is None:
